@@ -346,7 +346,7 @@ func (w *worldC) provisionConfig(nd *cNode, kci, eon int64, state dkgState, memb
 	}); err != nil {
 		r.InfraFail("InsertBatchConfig: %v", err)
 	}
-	if err := q.InsertEon(ctx, database.InsertEonParams{Eon: eon, Height: 0, ActivationBlockNumber: 0, KeyperConfigIndex: kci}); err != nil {
+	if err := q.InsertEon(ctx, database.InsertEonParams{Eon: eon, Height: kci * 1000, ActivationBlockNumber: 0, KeyperConfigIndex: kci}); err != nil {
 		r.InfraFail("InsertEon: %v", err)
 	}
 	// what the chain observer would have synced from the keyper set manager contract
@@ -392,7 +392,7 @@ func (w *worldC) provisionConfig(nd *cNode, kci, eon int64, state dkgState, memb
 		insertResult(eon, false)
 	case dkgRestartedNewer:
 		insertResult(eon, true)
-		if err := q.InsertEon(ctx, database.InsertEonParams{Eon: eon + 1, Height: 5, ActivationBlockNumber: 0, KeyperConfigIndex: kci}); err != nil {
+		if err := q.InsertEon(ctx, database.InsertEonParams{Eon: eon + 1, Height: kci*1000 + 5, ActivationBlockNumber: 0, KeyperConfigIndex: kci}); err != nil {
 			r.InfraFail("InsertEon: %v", err)
 		}
 	}
